@@ -295,6 +295,17 @@ func (s *Session) SetEntry(pkgPath, fname string, stubs map[string]string) error
 	for fn := range ssaAllFunctions(s.prog) {
 		names[fn.String()] = true
 	}
+	// engine-wide models of dependency code that uses goroutines (written in
+	// Go in package nd); applied whenever the target is part of the program.
+	for target, repl := range defaultStubs {
+		if _, own := stubs[target]; own || !names[target] {
+			continue
+		}
+		k := strings.LastIndex(repl, ".")
+		if f := find(repl[:k], repl[k+1:]); f != nil {
+			s.i.stubFns[target] = f
+		}
+	}
 	for target := range stubs {
 		if !names[target] {
 			return fmt.Errorf("stub target %s does not exist in the program", target)
@@ -302,6 +313,13 @@ func (s *Session) SetEntry(pkgPath, fname string, stubs map[string]string) error
 	}
 	s.i.fninfo = map[*ssa.Function]*fnInfo{}
 	return nil
+}
+
+// defaultStubs: go-intervals turns a callback enumeration into a pull iterator
+// with a generator goroutine and two channels; the model runs the (side-effect
+// free) enumeration eagerly and iterates over the collected values.
+var defaultStubs = map[string]string{
+	"github.com/google/go-intervals/intervalset.mapperToIterator": "github.com/uber-go/gopatch/internal/zzverif/nd.EagerIterator",
 }
 
 var allFuncsCache map[*ssa.Function]bool
